@@ -65,7 +65,8 @@ def generate(tier, seed):
             dist["same_text_two_functions"] += 1
     # key_match / key_get: text patterns with '*' anywhere
     kmp = ["/a/*", "/a*", "*", "/a", "", "/a/b*", "/é*", "/*/a", "a*b*", "/ab/*"]
-    kmk = ["", "/", "/a", "/a/", "/a/b", "/ab", "/ab/c", "/é", "/éa", "/é/b", "a", "ab", "/b", "/😀", "/a\nb"]
+    kmk = ["", "/", "/a", "/a/", "/a/b", "/ab", "/ab/c", "/é", "/éa", "/é/b", "a", "ab", "/b", "/😀", "/a\nb",
+           "/a/a", "/a/a/b", "/a/a/a", "/ab/ab/c", "aa", "/é/é"]      # the pattern's literal prefix REPEATED in the key
     for p in kmp:
         for k in kmk:
             cases.append("pm km %s %s" % (enc(k), enc(p)))
